@@ -44,7 +44,7 @@ enum Cmd {
     Send { slot: usize, dst: SocketAddr, payload: Vec<u8> },
     /// drain every socket of this host with a buffer of `buflen` (try_recv_from), or through
     /// readable()+try_recv when `via_readable`
-    Drain { buflen: usize },
+    Drain { buflen: usize, via_readable: bool },
 }
 
 #[derive(Default)]
@@ -158,12 +158,41 @@ pub fn scenario(ch: &mut Chooser, thorough: bool) -> Exec {
                                 st2.borrow_mut().results.push((h, format!("send{slot}->{dst} {:?}", r.map_err(|e| errk(&e)))));
                             }
                         }
-                        Cmd::Drain { buflen } => {
+                        Cmd::Drain { buflen, via_readable } => {
                             for (slot, s) in socks.iter().enumerate() {
                                 if let Some(s) = s {
                                     let mut buf = vec![0u8; buflen];
-                                    while let Ok((n, from)) = s.try_recv_from(&mut buf) {
-                                        st2.borrow_mut().drained.push((h, slot, buf[..n].to_vec(), from));
+                                    if !via_readable {
+                                        while let Ok((n, from)) = s.try_recv_from(&mut buf) {
+                                            st2.borrow_mut().drained.push((h, slot, buf[..n].to_vec(), from));
+                                        }
+                                        continue;
+                                    }
+                                    // readable().await, then the asynchronous recv_from: what was
+                                    // announced must be handed over at once
+                                    loop {
+                                        let ready = tokio::select! {
+                                            biased;
+                                            r = s.readable() => r.is_ok(),
+                                            _ = std::future::ready(()) => false,
+                                        };
+                                        if !ready {
+                                            break;
+                                        }
+                                        let got = tokio::select! {
+                                            biased;
+                                            r = s.recv_from(&mut buf) => Some(r),
+                                            _ = std::future::ready(()) => None,
+                                        };
+                                        match got {
+                                            Some(Ok((n, from))) => st2.borrow_mut().drained.push((h, slot, buf[..n].to_vec(), from)),
+                                            Some(Err(_)) => break,
+                                            None => {
+                                                // announced by readable() but recv_from does not return it
+                                                st2.borrow_mut().results.push((h, format!("LOST-AFTER-READABLE slot{slot}")));
+                                                break;
+                                            }
+                                        }
                                     }
                                 }
                             }
@@ -290,6 +319,7 @@ pub fn scenario(ch: &mut Chooser, thorough: bool) -> Exec {
     }
     // ---- probe sweep from every live sender socket
     let buflen = *ch.of("recv_buffer_len", &[16usize, 3]);
+    let via_readable = ch.flag("receive_through_readable_then_recv_from");
     let mut tag: u8 = 0;
     let senders: Vec<usize> = (0..model.len()).filter(|&i| model[i].alive && (model[i].host == 0 || model[i].host == 1) && model[i].slot == 0).collect();
     'probes: for &si in &senders {
@@ -321,7 +351,7 @@ pub fn scenario(ch: &mut Chooser, thorough: bool) -> Exec {
                 }
             }
             for h in 0..3 {
-                st.borrow_mut().cmds[h].push_back(Cmd::Drain { buflen });
+                st.borrow_mut().cmds[h].push_back(Cmd::Drain { buflen, via_readable });
                 notify[h].notify_one();
             }
             if let Err(e) = sim.step() {
@@ -373,6 +403,13 @@ pub fn scenario(ch: &mut Chooser, thorough: bool) -> Exec {
             want.sort();
             want.dedup();
             let g = st.borrow();
+            if let Some(l) = g.results.iter().find(|r| r.1.starts_with("LOST-AFTER-READABLE")) {
+                violation = Some(Violation::new(
+                    "not-delivered",
+                    format!("{kind} probe {tag}: host{} {}: readable() announced a datagram but the recv_from() that followed did not return it", l.0, l.1),
+                ));
+                break 'probes;
+            }
             let send_res = g.results.iter().find(|r| r.0 == s.host && r.1.starts_with("send")).map(|r| r.1.clone()).unwrap_or_default();
             let sent_ok = send_res.contains("Ok");
             obs.push(format!("probe {tag} {kind} host{} -> {dst}: {send_res}; drained {:?}", s.host, g.drained));
